@@ -83,8 +83,17 @@ func (s *Scope) Define(sym *Symbol) {
 func (s *Scope) DefineImported(sym *Symbol, pkg string) {
 	sym.Scope = s
 	if sym.Package != "" {
-		s.PackageSymbols[sym.Package+":"+sym.Name] = sym
-		s.bareNameIndex[sym.Name] = sym
+		// Do not replace a definition made in this very file by its own
+		// external (imported) copy: a file that defines and exports package p
+		// and later says (use-package 'p) would otherwise lose the local
+		// symbol, and with it the Exported mark applied by prescanExport.
+		key := sym.Package + ":" + sym.Name
+		if existing, ok := s.PackageSymbols[key]; ok && !existing.External {
+			sym = existing
+		} else {
+			s.PackageSymbols[key] = sym
+			s.bareNameIndex[sym.Name] = sym
+		}
 	}
 	if pkg == "" {
 		s.Symbols[sym.Name] = sym
